@@ -71,6 +71,26 @@ func waterKernelStage(c *vh.Ctx, n int, balance, bounds bool) {
 	}
 	saved := kept
 	c.Correspond("water.step", cases, impl, 1e-9, 1e-12, func(i int) interface{} { return saved[i] })
+	if nc := minI(len(saved), 800); nc > 0 && len(impl) == len(saved) { // the same cases in 8 goroutines at once
+		concurrentKernelStage(c, "water", impl[:nc], 8, 2, func(i int) string {
+			wc := saved[i]
+			o, pan := runWaterImpl(&wc)
+			if pan != "" {
+				return "panic " + pan
+			}
+			return o.line()
+		}, func(i int, got string) {
+			if i < 0 {
+				c.Violate("search", "water-kernel:concurrent:panic", "hermes.Water panics when several simulations run at the same time: "+got, nil)
+				return
+			}
+			wc := saved[i]
+			if o, _ := runWaterImpl(&wc); o.line() != impl[i] {
+				return
+			}
+			c.Violate("search", "water-kernel:concurrent:differs-from-sequential", fmt.Sprintf("hermes.Water on its own state gives another answer when other simulations call it at the same time (state shared between runs): sequential %.60s…, concurrent %.60s…", impl[i], got), wc)
+		})
+	}
 }
 
 func checkC01(c *vh.Ctx) {
